@@ -143,6 +143,19 @@ class SiteServer:
         def deliver():
             if conn.client_closed:
                 return
+            split = getattr(page, 'split', None)
+            if split and b'\r\n\r\n' in data and not data.endswith(b'\r\n\r\n'):
+                # header block first, the body a little later (as a loaded server does): the client reads them apart
+                head_, _, body_ = data.partition(b'\r\n\r\n')
+                conn.send(head_ + b'\r\n\r\n')
+
+                def rest():
+                    if not conn.client_closed:
+                        conn.send(body_)
+                        if page.close:
+                            conn.close()
+                self.loop.call_later(split, rest)
+                return
             conn.send(data)
             if page.close:
                 conn.close()
